@@ -7,7 +7,10 @@ from vsym import loader, models, cryptostub
 _P = {}
 
 
-def P(optimize=0):
+def P(optimize=None):
+    if optimize is None:
+        from . import common
+        optimize = common.DEFAULT_OPT[0]
     if optimize not in _P:
         secrets = cryptostub.SecretsStub()
         stubs = {'Cipher': cryptostub.Cipher, 'algorithms': cryptostub.AlgorithmsStub, 'd_algorithms': cryptostub.AlgorithmsStub,
